@@ -3,7 +3,7 @@
 set -u
 P=$1; PROP=$2; TIER=${3:-quick}
 git -C /repo apply "$P" || { echo "patch does not apply"; exit 3; }
-python3 /verif/vcheck.py $PROP --tier $TIER 2>&1 | tail -${TAILN:-6}
+VERIF_EVIDENCE=/tmp/vseed-evidence python3 /verif/vcheck.py $PROP --tier $TIER 2>&1 | tail -${TAILN:-6}
 RC=${PIPESTATUS[0]}
 git -C /repo checkout -- .
 echo "exit=$RC"
